@@ -1170,8 +1170,8 @@ func waitGone(w *world) bool {
 	return false
 }
 
-func probeHookRace(tries int) {
-	res := map[string]interface{}{"kind": "probe", "probe": "hookrace", "reproduced": false, "tries": 0}
+func probeHookRace(tries int, leaver string) {
+	res := map[string]interface{}{"kind": "probe", "probe": "hookrace", "leaver": leaver, "reproduced": false, "tries": 0}
 	for i := 1; i <= tries; i++ {
 		res["tries"] = i
 		w := newWorld()
@@ -1180,7 +1180,7 @@ func probeHookRace(tries int) {
 			w.apply(Op{Op: "sub", C: "c1", T: "t"})
 			w.A.VerifLockMembers()
 			done := make(chan struct{})
-			go func() { w.apply(Op{Op: "unsub", C: "c1", T: "t"}); close(done) }()
+			go func() { w.apply(Op{Op: leaver, C: "c1", T: "t"}); close(done) }()
 			if !waitGone(w) {
 				// the hook does not get past memberMu before it touches the reference count: no window (repaired code)
 				res["window"] = "closed"
@@ -1219,7 +1219,7 @@ func probeHookRace(tries int) {
 				w.apply(Op{Op: "sub", C: "c1", T: "t"})
 				w.A.VerifLockMembers()
 				done := make(chan struct{})
-				go func() { w.apply(Op{Op: "unsub", C: "c1", T: "t"}); close(done) }()
+				go func() { w.apply(Op{Op: leaver, C: "c1", T: "t"}); close(done) }()
 				if !waitGone(w) {
 					w.A.VerifUnlockMembers()
 					<-done
@@ -1335,6 +1335,7 @@ func main() {
 	flag.BoolVar(&autoNext, "autonext", false, "release the ack gate at once (model run with Fixes next_before_ack)")
 	probe := flag.String("probe", "", "run a schedule probe instead of a replay: hookrace")
 	tries := flag.Int("tries", 200, "")
+	leaver := flag.String("leaver", "unsub", "hookrace: how c1 gives up the last reference: unsub (OnUnsubscribed) | term (OnSessionTerminated)")
 	flag.Parse()
 	var err error
 	sharedConn, err = grpc.NewClient("passthrough:///verif-fake", grpc.WithTransportCredentials(insecure.NewCredentials()))
@@ -1351,7 +1352,7 @@ func main() {
 		return
 	}
 	if *probe == "hookrace" {
-		probeHookRace(*tries)
+		probeHookRace(*tries, *leaver)
 		return
 	}
 	if err := tc.Each(os.Stdin, *workers, *raw, nil, one); err != nil {
